@@ -30,7 +30,7 @@ def FLOORS(tier):
     q = tier == "quick"
     f = {"expected-keyerror": 100 if q else 3000, "value-checks": 3000 if q else 10 ** 5,
          "alias:self-operand": 60 if q else 2000, "operand:raw-dict": 300 if q else 10 ** 4, "typed-coefficients": 60, "division:exact-rational": 15,
-         "big-product:spin": 4, "big-product:bool": 4, "underflow-to-zero": 15, "huge-integers": 20}
+         "big-product:spin": 4, "big-product:bool": 4, "underflow-to-zero": 15, "operand:named-variable:scaled": 100, "huge-integers": 20}
     for o in OPS:
         for ts in TYPES.values():
             for t in ts:
@@ -213,8 +213,27 @@ def case(ctx, rng, idx):
             ctx.cat("typed-coefficients")
         return gen.model_of(T, terms), ref.from_raw(kind, terms), (tn, terms)
 
+    def new_variable():
+        """a variable object (boolean_var / spin_var: a one-term PCBO / PCSO that carries its name), possibly edited in place
+        in ways that keep it a named one-term model"""
+        name_ = rng.choice([x for x in labs_lab if isinstance(x, (str, int)) and not isinstance(x, bool)] or ["vx"])
+        v = (L.boolean_var if kind == "bool" else L.spin_var)(name_)
+        coef = 1
+        how = rng.choice(["bare", "scaled", "scaled", "halved", "doubled-by-iadd"])
+        if how == "scaled":
+            v *= 3
+            coef = 3
+        elif how == "halved":
+            v /= 4
+            coef = 0.25
+        elif how == "doubled-by-iadd":
+            v += v
+            coef = 2
+        ctx.cat("operand:named-variable:" + how)
+        return v, ref.from_raw(kind, {(name_,): coef}), ("PCBO" if kind == "bool" else "PCSO", {"var": name_, "edited": how})
+
     for _ in range(rng.randint(2, 4)):
-        m, p, d = new_model()
+        m, p, d = new_variable() if (not matrix_only and rng.random() < 0.12) else new_model()
         pool.append(m)
         refs.append(p)
         desc0.append(d)
